@@ -312,7 +312,7 @@ add("C12", "c_exchange",
 add("C31", "c_session",
     [T("TestC31", 1, 1, rapid=False, timeout_thorough=2400)],
     level="fault_enumeration",
-    rule="pairs of old/new session.Data (DC option lists of 0..2500 entries: files from ~1 KB to ~500 KB, new smaller/equal/larger than old), 12 pairs in quick and 120 in thorough derived from VERIF_SEED; per pair (1) a reference strace run of a helper process performing Loader.Save, then one run per traced system call touching the session directory with SIGKILL injected at its entry, (2) simulated crash states from the recorded trace: every prefix, the last write applied for 0, 1, n/2, n-1 bytes, and a power-loss model dropping all or half of the data not yet fsynced while completed renames persist. non-trivial = crash point after the first mutating system call and up to the last one, or any power-loss state; distinct by (pair, crash point)",
+    rule="pairs of old/new session.Data (DC option lists of 0..2500 entries: files from ~1 KB to ~500 KB, new smaller/equal/larger than old), 12 pairs in quick and 120 in thorough derived from VERIF_SEED; per pair (1) a reference strace run of a helper process performing Loader.Save, then one run per traced system call touching the session directory with SIGKILL injected at its entry, (1b, every second pair) the same for a storage that starts empty - look for a session (none), store the old one, replace it by the new one on one FileStorage value; up to the marker between the two stores the directory may hold no session or the complete old one, after it the complete old or new one - (2) simulated crash states from the recorded trace: every prefix, the last write applied for 0, 1, n/2, n-1 bytes, and a power-loss model dropping all or half of the data not yet fsynced while completed renames persist. non-trivial = crash point after the first mutating system call and up to the last one, or any power-loss state; distinct by (pair, crash point)",
     technique="crash-point enumeration by system-call fault injection (strace inject=SIGKILL) + trace-driven file-system model; oracle Loader.Load == old or new",
     text="Every enumerated crash state must load as the complete old or the complete new session. The real-kill part is exhaustive over the system calls of the save for each generated pair; the simulated part is a stated, conservative file-system model, not a kernel.",
     note="Power-loss model: data written after the last fsync of a file may be lost entirely or partly; renames are durable. Directory-entry durability is not modelled (either outcome is acceptable to the oracle).",
